@@ -91,6 +91,12 @@ class AlgebraProfile(StoreProfile):
             pool = ents
             if rng.random() < 0.12:
                 pool = typed_prefixes(m, ents) or ents
+            elif rng.random() < 0.25:
+                # entities with a free field that only lives in the file name (where globbing can confuse values)
+                v = self.vocab(run)
+                fn = [e for e in ents if any(v.file_name_only(m.natural_type(e), k) and m.vocab(m.natural_type(e), k)[0] == "free"
+                                             for k in m.by_name[m.natural_type(e)].keys)]
+                pool = fn or ents
             st = self.gen_relation(run, rng.choice(pool))
             if st:
                 return st
@@ -118,9 +124,29 @@ class AlgebraProfile(StoreProfile):
         if rule == "comma":
             j = rng.randrange(n)
             vals = [v for v in (vocab.values(tn, t.keys[j]) or []) if v != segs[j]]
+            # a list of two values where one is the other plus the file-name separator, on a field that only lives
+            # in the file name: the alternatives' glob patterns overlap
+            fno = [i for i in range(n) if vocab.file_name_only(tn, t.keys[i])]
+            partner = None
+            if fno and rng.random() < 0.6:
+                j = rng.choice(fno)
+                for sp in vocab.seps:
+                    if sp in segs[j]:
+                        partner = segs[j].rsplit(sp, 1)[0]
+                    elif segs[j] + sp + "b" in vocab.pair_names:
+                        partner = segs[j] + sp + "b"
+                    elif segs[j] + sp + "y" in vocab.pair_names:
+                        partner = segs[j] + sp + "y"
+                vals = [v for v in (vocab.values(tn, t.keys[j]) or []) if v != segs[j]]
             if not vals:
                 return None
-            alts = [segs[j]] + rng.sample(vals, rng.randint(1, min(2, len(vals))))
+            if partner and partner != segs[j]:
+                run.probes["comma_near_miss_pairs"] += 1
+                alts = [segs[j], partner]
+                if j > 0 and rng.random() < 0.7:
+                    host[j - 1] = "*"      # the field that follows it in the file name (state) as a wildcard
+            else:
+                alts = [segs[j]] + rng.sample(vals, rng.randint(1, min(2, len(vals))))
             rng.shuffle(alts)
             h = list(host)
             h[j] = ",".join(alts)
